@@ -64,6 +64,7 @@ pub struct Run {
     /// events of this run (drained from the shared log after every command)
     pub events: Vec<Value>,
     pub listener: i64,
+    pub seq: i64,
 }
 
 impl Run {
@@ -93,7 +94,7 @@ impl Run {
         rig.world.push_event(Ev::NewAddress(lid, addr(100)));
         rig.poll_quiescent();
         rig.log.drain();
-        Run { rig, slot_conn: vec![], upg_conn: vec![], used: vec![], events: vec![], listener }
+        Run { rig, slot_conn: vec![], upg_conn: vec![], used: vec![], events: vec![], listener, seq: 0 }
     }
 
     fn flush(&mut self) {
@@ -237,6 +238,25 @@ impl Run {
                     }
                 }
                 self.events.push(json!({"e": "keepAlive", "id": id, "v": v, "applied": applied}));
+            }
+            "emit" => {
+                // behaviour b1 queues NotifyHandler commands: targets = [{"one": id} | {"any": peer}]
+                let mut n = 0;
+                for t in c["targets"].as_array().unwrap() {
+                    self.seq += 1;
+                    let ev = json!({"seq": self.seq});
+                    if let Some(id) = t.get("one").and_then(|x| x.as_i64()) {
+                        if let Some(cid) = self.rig.ids.conn_of(id) {
+                            let peer = t.get("peer").and_then(|x| x.as_i64()).unwrap_or(1);
+                            self.behs()[0].ctl.emit(ToSwarm::NotifyHandler { peer_id: self.rig.ids.peer_id(peer as usize), handler: libp2p_swarm::NotifyHandler::One(cid), event: ev });
+                            n += 1;
+                        }
+                    } else if let Some(p) = t.get("any").and_then(|x| x.as_i64()) {
+                        self.behs()[0].ctl.emit(ToSwarm::NotifyHandler { peer_id: self.rig.ids.peer_id(p as usize), handler: libp2p_swarm::NotifyHandler::Any, event: ev });
+                        n += 1;
+                    }
+                }
+                self.events.push(json!({"e": "emitQueued", "n": n}));
             }
             "poll" => {
                 let r = vcommon::guard(|| self.rig.poll_quiescent());
